@@ -250,7 +250,7 @@ def classify(h, rc, out, wall, timed_out):
     covers = [c for c in checks if c["status"] in ("SATISFIED", "UNSATISFIABLE", "UNREACHABLE")
               and ".cover." in c["name"]]
     props = [c for c in checks if c not in covers]
-    failures = [c for c in props if c["status"] == "FAILURE"]
+    failures = [c for c in props if c["status"] in ("FAILURE", "ERROR")]
     def harness_bug(c):
         # arithmetic overflow / index out of bounds raised by the harness text itself (not by an
         # obligation it asserts) is a defect of the harness: undecided, never a violation
